@@ -36,6 +36,11 @@ def build(rng, facts, name):
     for kind in rng.sample(TARGETS, 3):
         for P in ("P", "P3"):
             b.emit("kfromproto r %s %s" % (P, kind), "ok"); b.emit("kobs r", expect_decoded(j0, kind, loose=arbitrary))
+    # the message is a value: it keeps describing the sketch as it was when converted, whatever happens to the sketch afterwards
+    b.kcopy("kk", "k"); b.emit("ktoproto PP kk", "ok"); jpp = b.emit("kpobs PP")
+    if rng.random() < 0.5: b.kclear("kk")
+    for v in rand_values(rng, rng.choice([2, 6, 30]), -2, 2): b.kadd("kk", v, rng.choice([None, 2.0, 0.75]))
+    b.emit("kpobs PP", ("same", jpp)); b.emit("kpmarshal mb2 PP", "ok"); b.emit("kpunmarshal PP2 mb2", "ok"); b.emit("kpobs PP2", ("same", jpp))
     # FromProto = the default (paginated) store provider
     b.emit("kfromproto r P default", "ok"); b.emit("kobs r", expect_decoded(j0, "pag", loose=arbitrary))
     return b
@@ -70,12 +75,17 @@ def build_store(rng, name):
         allb = [(i, Fraction(w)) for i, w in bins.items()] + [(off + j, Fraction(w)) for j, w in enumerate(contig)]
         for i, w in sorted(allb): u.add(i, w)
         b.emit("obs u", u.obsline())
+    # the store message is a value too
+    b.emit("toproto ps s", "ok"); jps = b.emit("pobs ps")
+    if rng.random() < 0.5: b.emit("clear s", "ok")
+    for _ in range(rng.choice([2, 8, 40])): b.emit("addw s %d %s" % (base + rng.randint(-60, 60), f2h(rng.choice([1.0, 2.0, 0.5]))), "ok")
+    b.emit("pobs ps", ("same", jps))
     return b
 
 def run(tier, seed):
     rng = random.Random(seed)
     ok, log = core.build_vrun()
-    specs = [mapspec(rng)[0] for _ in range(10 if tier == "quick" else 40)]
+    specs = [mapspec(rng)[0] for _ in range(10 if tier == "quick" else 40)] + ["log:g:%s:%s" % (f2h(1.02), f2h(0.0)), "lin:g:%s:%s" % (f2h(1.02), f2h(0.0)), "cub:g:%s:%s" % (f2h(1.015), f2h(0.0)), "lin:g:%s:%s" % (f2h(1.1), f2h(-7.5))]
     facts = sketchcheck.learn_specs("C09", specs) if ok else {}
     n = 250 if tier == "quick" else 6000
     builders = ([build(rng, facts, "k%d" % i) for i in range(n)] + [build_store(rng, "s%d" % i) for i in range(n)]) if facts else []
